@@ -596,9 +596,20 @@ def check_c02_c04(ctx, which, n_quick, n_thorough):
             path = arg; desc = os.path.basename(arg)
         big = kind == "vendor"
         L = ["dumpmode full", "load %s" % path, "specdecode %s" % path, "save @W@/g2.c3d", "load @W@/g2.c3d", "save @W@/g3.c3d", "load @W@/g3.c3d", "save @W@/g4.c3d"]
+        # C04: is the object the FIRST load returned inside the domain of the theorems C01.load_write / C04.resave_byte_identical
+        # (the first generation as a theorem instance)? `lwcheck` goes last so that the op numbers above stay as they are
+        if which == "C04": L = L[:2] + L[2:] ; L2 = ["dumpmode none", "load %s" % path, "lwcheck"]
         res = run.run_pair(L, exe, wd=wd, timeout=300)
         fails = []
         recs = res.hrecs; m = {r_["n"]: r_ for r_ in res.mrecs}
+        if which == "C04" and len(recs) > 1 and recs[1]["res"] == "R ok":
+            r2 = run.run_pair(L2, exe, wd=wd, timeout=300)
+            lw = [x for x in r2.mrecs if x["op"] == "lwcheck"]
+            v = ((lw[0]["res"] or "") + " " + " ".join(lw[0]["lines"])) if lw else ""
+            if " hyps=true" in v:
+                fails.append(("_c04_first_generation_inside_load_write_domain", {}, ""))
+                if "concl=true" not in v: fails.append(("theorem_instance", {"layout": desc}, "the loaded object meets the hypotheses of load_write but not its conclusion: " + v))
+            elif " hyps=false" in v: fails.append(("_c04_first_generation_outside_load_write_domain", {}, ""))
         try:
             d1 = run.parse_dump(recs[1]["lines"]) if len(recs) > 1 and recs[1]["res"] == "R ok" else None
             if which == "C02":
